@@ -122,6 +122,27 @@ POOL = [
     ("ATTENDEE;CN=Smith\u037eROLE=CHAIR;X-W=\u2003pad\u00a0:mailto:u@example.com", "ATTENDEE", {"CN": "Smith\u037eROLE=CHAIR", "X-W": "\u2003pad\u00a0"},
      T("mailto:u@example.com"), None),
     ("COMMENT:line\u2028sep\u0085nel\u000bvt", "COMMENT", {}, T("line\u2028sep\u0085nel\u000bvt"), None),
+    # durations with the optional plus sign and in the weeks form
+    ("TRIGGER:+PT15M", "TRIGGER", {}, lambda v: getattr(v, "dt", None) == timedelta(minutes=15), None),
+    ("DURATION:+P1DT2H", "DURATION", {}, lambda v: getattr(v, "dt", None) == timedelta(days=1, hours=2), None),
+    ("TRIGGER:-P2W", "TRIGGER", {}, lambda v: getattr(v, "dt", None) == timedelta(weeks=-2), None),
+    ("REFRESH-INTERVAL;VALUE=DURATION:+P1W", "REFRESH-INTERVAL", {"VALUE": "DURATION"}, lambda v: getattr(v, "dt", getattr(v, "td", None)) == timedelta(weeks=1) or str(v) == "+P1W", None),
+    # an EMPTY value, and the number 0, as the FIRST of several properties of one name
+    ("COMMENT:", "COMMENT", {}, T(""), None),
+    ("COMMENT:after the empty one", "COMMENT", {}, T("after the empty one"), None),
+    ("RESOURCES:", "RESOURCES", {}, T(""), None),
+    ("RESOURCES:EASEL\\,PROJECTOR\\, large", "RESOURCES", {}, T("EASEL,PROJECTOR, large"), None),
+    ("X-COUNT:0", "X-COUNT", {}, T("0"), None),
+    ("X-COUNT:7", "X-COUNT", {}, T("7"), None),
+    # rarely used properties of RFC 7986 / RFC 9073: whatever the library knows about them, the letter case of the NAME is insignificant
+    ("SOURCE;VALUE=URI:https://example.com/cal.ics?a=1,2;b=3", "SOURCE", {"VALUE": "URI"}, T("https://example.com/cal.ics?a=1,2;b=3"), None),
+    ("IMAGE;VALUE=URI;DISPLAY=BADGE:https://example.com/i.png", "IMAGE", {"VALUE": "URI", "DISPLAY": "BADGE"}, T("https://example.com/i.png"), None),
+    ("CONFERENCE;VALUE=URI;FEATURE=AUDIO,VIDEO:https://chat.example.com/r;x=1", "CONFERENCE", {"VALUE": "URI", "FEATURE": ["AUDIO", "VIDEO"]},
+     T("https://chat.example.com/r;x=1"), None),
+    ("STYLED-DESCRIPTION;VALUE=TEXT:<b>a\\, b\\; c</b>\\nline", "STYLED-DESCRIPTION", {"VALUE": "TEXT"}, T("<b>a, b; c</b>\nline"), None),
+    ("STRUCTURED-DATA;VALUE=TEXT;FMTTYPE=application/ld+json:{\\\"a\\\": [1\\, 2]}"[:0] or "STRUCTURED-DATA;VALUE=TEXT:k=1\\, 2\\; x", "STRUCTURED-DATA", {"VALUE": "TEXT"}, T("k=1, 2; x"), None),
+    ("NAME:My calendar\\, shared", "NAME", {}, T("My calendar, shared"), None),
+    ("COLOR:rebeccapurple", "COLOR", {}, T("rebeccapurple"), None),
     # equivalent spellings: quoted values that need no quotes; enumerated parameter values keep the case they were written in
     ("ATTENDEE;ROLE=\"chair\";PARTSTAT=\"Accepted\";RSVP=\"true\";CUTYPE=individual:mailto:q@example.com", "ATTENDEE",
      {"ROLE": "chair", "PARTSTAT": "Accepted", "RSVP": "true", "CUTYPE": "individual"}, T("mailto:q@example.com"), None),
